@@ -267,6 +267,15 @@ def check_draw_integers(ck, prog, label, f, nxt):
                         # and this BitAnd feeds the push
                         if ("l", 0) or True:
                             masked = masked or _feeds(g, f, s["lhs"]["l"], t["args"][1], (b, T))
+        # ... or the remainder of the division by domain_size itself (the same value when domain_size is a power of two, which
+        # draw_integers asserts)
+        for bb, i, s in f.assigns():
+            if s["rv"]["k"] == "bin" and s["rv"]["op"] == "Rem":
+                wa = g.walk(ops=[s["rv"]["a"]], at=(bb, i))
+                wb = g.walk(ops=[s["rv"]["b"]], at=(bb, i))
+                if nxt.among_walk(wa) and not nxt.among_walk(wb) and any(f.local_name(p) == "domain_size" for p in g.params_in(wb)) \
+                        and not g.consts_in(wb):
+                    masked = masked or _feeds(g, f, s["lhs"]["l"], t["args"][1], (b, T))
         if not (masked and nxt.among_walk(w)):
             okp = False
     ck.ob("DRAW", f"{label}::draw_integers:masked", okp,
